@@ -1,72 +1,528 @@
+// h_c33: harness for C33 (query evaluation never fails internally; typing; concurrency).
+//
+// For every generated query string it (1) runs the two phases of the real parser separately
+// (grammar, checkAST) through the export shim and projects the AST before checkAST, (2) runs the
+// real promql.PreprocessExpr and projects the result, (3) evaluates the query as an instant and
+// as a range query through the real promql.Engine over generated mixed float / histogram /
+// stale / NaN / Inf data, classifying the outcome as value(type) / user error / internal error /
+// rejected, (4) re-evaluates all queries concurrently in the same engines and compares with the
+// serial results. Coq then compares typing verdict, preprocessing and fault prediction with
+// model.PromqlTyping (agree) and evaluates the property on the observations (holds).
 package main
 
 import (
 	"context"
 	"fmt"
+	"math"
 	"os"
+	"sort"
+	"strings"
+	"sync"
 	"time"
 
-	"github.com/prometheus/prometheus/model/labels"
+	"github.com/prometheus/prometheus/model/histogram"
 	"github.com/prometheus/prometheus/promql"
 	"github.com/prometheus/prometheus/promql/parser"
-	"github.com/prometheus/prometheus/storage"
-	"github.com/prometheus/prometheus/tsdb/chunkenc"
-	"github.com/prometheus/prometheus/tsdb/chunks"
-	"github.com/prometheus/prometheus/model/histogram"
-	"github.com/prometheus/prometheus/util/annotations"
+
+	"verif/harness/internal/gallina"
+	"verif/harness/internal/gen"
 )
 
-type fs struct {
-	t int64
-	f float64
+var popts = parser.Options{EnableExperimentalFunctions: true}
+
+func newEngine(variant int) *promql.Engine {
+	o := promql.EngineOpts{
+		MaxSamples:               200000,
+		Timeout:                  300 * time.Second,
+		NoStepSubqueryIntervalFn: func(int64) int64 { return 30000 },
+		EnableAtModifier:         true,
+		EnableNegativeOffset:     true,
+		LookbackDelta:            5 * time.Minute,
+		Parser:                   parser.NewParser(popts),
+	}
+	switch variant {
+	case 1:
+		o.EnableDelayedNameRemoval = true
+		o.EnableTypeAndUnitLabels = true
+		o.UseStartTimestamps = true
+	case 2:
+		o.MaxSamples = 150
+	}
+	return promql.NewEngine(o)
 }
 
-func (c fs) T() int64                    { return c.t }
-func (c fs) ST() int64                   { return 0 }
-func (c fs) F() float64                  { return c.f }
-func (fs) H() *histogram.Histogram       { return nil }
-func (fs) FH() *histogram.FloatHistogram { return nil }
-func (fs) Type() chunkenc.ValueType      { return chunkenc.ValFloat }
-func (c fs) Copy() chunks.Sample         { return c }
+// ---- observations ----------------------------------------------------------------------------
 
-type listSet struct {
-	ss []storage.Series
-	i  int
+const (
+	clValue    = 0
+	clUser     = 1
+	clInternal = 2
+	clRejected = 3
+)
+
+type entry struct {
+	key string
+	f   float64
+	h   string
 }
 
-func (o *listSet) Next() bool                       { o.i++; return o.i <= len(o.ss) }
-func (o *listSet) At() storage.Series               { return o.ss[o.i-1] }
-func (*listSet) Err() error                         { return nil }
-func (*listSet) Warnings() annotations.Annotations  { return nil }
+type runObs struct {
+	class int
+	vt    parser.ValueType
+	msg   string
+	res   []entry
+}
+
+var internalMarks = []string{
+	"unexpected error:", "unhandled expression of type", "unexpected result in StepInvariantExpr",
+	"unexpected number of samples", "cannot do range evaluation of matrix selector",
+	"unexpected nil implementation", "promql.Engine.exec:", "found unexpected node", "unhandled node type",
+	"harness: panic",
+}
+
+func isInternal(msg string) bool {
+	for _, m := range internalMarks {
+		if strings.Contains(msg, m) {
+			return true
+		}
+	}
+	return false
+}
+
+func hstr(h *histogram.FloatHistogram) string {
+	return fmt.Sprintf("H(%.9g,%.9g,%d,%d)", h.Count, h.Sum, len(h.PositiveBuckets), len(h.NegativeBuckets))
+}
+
+func canon(v parser.Value) []entry {
+	var out []entry
+	switch r := v.(type) {
+	case promql.Vector:
+		for _, s := range r {
+			e := entry{key: fmt.Sprintf("%s@%d", s.Metric.String(), s.T), f: s.F}
+			if s.H != nil {
+				e.h = hstr(s.H)
+			}
+			out = append(out, e)
+		}
+	case promql.Matrix:
+		for _, s := range r {
+			for _, p := range s.Floats {
+				out = append(out, entry{key: fmt.Sprintf("%s@%d", s.Metric.String(), p.T), f: p.F})
+			}
+			for _, p := range s.Histograms {
+				out = append(out, entry{key: fmt.Sprintf("%s@%d", s.Metric.String(), p.T), h: hstr(p.H)})
+			}
+		}
+	case promql.Scalar:
+		out = append(out, entry{key: fmt.Sprintf("scalar@%d", r.T), f: r.V})
+	case promql.String:
+		out = append(out, entry{key: "string:" + r.V})
+	}
+	sort.SliceStable(out, func(i, j int) bool { return out[i].key < out[j].key })
+	return out
+}
+
+func feq(a, b float64) bool {
+	if math.IsNaN(a) || math.IsNaN(b) {
+		return math.IsNaN(a) && math.IsNaN(b)
+	}
+	if a == b {
+		return true
+	}
+	d := math.Abs(a - b)
+	return d <= 1e-9*math.Max(math.Abs(a), math.Abs(b)) || d <= 1e-300
+}
+
+func sameObs(a, b runObs) bool {
+	if a.class != b.class || a.vt != b.vt || len(a.res) != len(b.res) {
+		return false
+	}
+	if a.class != clValue {
+		return a.msg == b.msg
+	}
+	for i := range a.res {
+		if a.res[i].key != b.res[i].key || a.res[i].h != b.res[i].h || !feq(a.res[i].f, b.res[i].f) {
+			return false
+		}
+	}
+	return true
+}
+
+type qcase struct {
+	q          string
+	ds, eng    int
+	ts         int64
+	rs, step   int64
+	nsteps     int
+	corpus     string
+	synErr     error
+	typErr     error
+	rootType   parser.ValueType
+	term, pre  string
+	modelled   bool
+	inst, rng  runObs
+	selRej     bool // storage was reached although the query was rejected
+	concSame   bool
+	unstable   bool
+	orderDep   bool
+	paramQuirk bool
+}
+
+func runOne(ng *promql.Engine, d *dataset, c *qcase, instant bool) (o runObs) {
+	defer func() {
+		if r := recover(); r != nil {
+			o = runObs{class: clInternal, msg: fmt.Sprintf("harness: panic escaped the engine: %v", r)}
+		}
+	}()
+	var (
+		qry promql.Query
+		err error
+	)
+	ctx := context.Background()
+	if instant {
+		qry, err = ng.NewInstantQuery(ctx, d, nil, c.q, time.UnixMilli(c.ts))
+	} else {
+		qry, err = ng.NewRangeQuery(ctx, d, nil, c.q, time.UnixMilli(c.rs), time.UnixMilli(c.rs+int64(c.nsteps-1)*c.step), time.Duration(c.step)*time.Millisecond)
+	}
+	if err != nil {
+		cl := clRejected
+		if isInternal(err.Error()) {
+			cl = clInternal
+		}
+		return runObs{class: cl, msg: err.Error()}
+	}
+	defer qry.Close()
+	res := qry.Exec(ctx)
+	if res.Err != nil {
+		cl := clUser
+		if isInternal(res.Err.Error()) {
+			cl = clInternal
+		}
+		return runObs{class: cl, msg: res.Err.Error()}
+	}
+	return runObs{class: clValue, vt: res.Value.Type(), res: canon(res.Value)}
+}
+
+func runTerm(o runObs) string {
+	return fmt.Sprintf("(mkRun %d %s)", o.class, vtypeTerm(o.vt))
+}
+
+// ---- main ------------------------------------------------------------------------------------
+
+type desc struct {
+	Query   string `json:"query"`
+	Dataset int    `json:"dataset"`
+	Engine  int    `json:"engine"`
+	TS      int64  `json:"instant_ts_ms"`
+	RStart  int64  `json:"range_start_ms"`
+	RStep   int64  `json:"range_step_ms"`
+	NSteps  int    `json:"range_steps"`
+	Typing  string `json:"typing"`
+	Instant string `json:"instant"`
+	Range   string `json:"range"`
+	Shape   string `json:"shape"`
+	Corpus  string `json:"corpus,omitempty"`
+}
+
+func obsStr(o runObs) string {
+	switch o.class {
+	case clValue:
+		return fmt.Sprintf("value %s (%d points)", o.vt, len(o.res))
+	case clUser:
+		return "user error: " + o.msg
+	case clInternal:
+		return "INTERNAL: " + o.msg
+	}
+	return "rejected: " + o.msg
+}
+
+var corpus = [][2]string{
+	{"agg-param-paren-string", `topk(scalar(label_replace(foo, ("a"), "b", "c", "d")), foo)`},
+	{"agg-param-paren-matrix", `topk(scalar(rate((foo[1m]))), foo)`},
+	{"agg-param-paren-sortlabel", `quantile(scalar(sort_by_label(foo, ("a"))), foo)`},
+	{"agg-param-paren-countvalues", `topk(scalar(count_values(("a"), foo)), foo)`},
+	{"info-at-selector", `info(foo, {version="v1"} @ 100)`},
+	{"info-ok", `info(foo, {version="v1"})`},
+	{"paren-args-ok", `label_replace((foo), ("a"), "b", ("job"), "(.*)")`},
+	{"paren-matrix-ok", `rate(((foo[1m])))`},
+	{"count-values-paren-ok", `count_values(("v"), foo)`},
+	{"string-toplevel", `"a"`},
+	{"paren-string-toplevel", `(("a"))`},
+	{"matrix-toplevel", `foo[1m]`},
+	{"subquery-toplevel", `(foo > 1)[2m:30s] @ 300`},
+	{"stepinv-matrix", `rate(foo[1m] @ 300)`},
+	{"stepinv-binop", `foo @ 100 + bar @ start()`},
+	{"scalar-funcs", `clamp(foo, scalar(bar), time()) + vector(pi())`},
+	{"histogram", `histogram_quantile(0.9, rate(h[2m])) + histogram_fraction(0, 1, h)`},
+	{"classic-histogram", `histogram_quantile(0.5, b_bucket)`},
+	{"mixed", `sum(mixed) / avg_over_time(mixed[5m])`},
+	{"ill-unary-string", `-"a"`},
+	{"ill-binop-matrix", `foo[1m] + 1`},
+	{"ill-scalar-cmp", `1 > 2`},
+	{"ill-arity", `clamp(foo)`},
+	{"ill-agg-param", `topk(foo, foo)`},
+	{"ill-subquery-scalar", `1[5m:1m]`},
+	{"ill-call-arg", `rate(foo)`},
+	{"ill-set-scalar", `foo and 1`},
+	{"ill-info-named", `info(foo, target_info)`},
+	{"ill-empty-matcher", `{x=""}`},
+	{"ill-name-twice", `foo{__name__="bar"}`},
+	{"many-to-many", `foo + on(job) bar`},
+	{"dup-labelset", `label_replace(foo, "instance", "", "instance", ".*")`},
+	{"bad-regex", `label_replace(foo, "a", "b", "c", "(")`},
+	{"ctx-functions", `foo * step() + range() - start() + end()`},
+	{"ts-special", `timestamp(foo @ 100) + timestamp((foo)) + timestamp(timestamp(foo))`},
+	{"absent", `absent_over_time(nothing[1m]) or absent(nothing{job="a"})`},
+	{"sort-label", `sort_by_label(foo, "job", "instance")`},
+	{"hq-multi", `histogram_quantiles(h, "q", 0.5, 0.9)`},
+}
 
 func main() {
-	var l []chunks.Sample
-	for i := int64(0); i < 20; i++ {
-		l = append(l, fs{i * 15000, float64(i)})
+	f := gallina.ParseFlags()
+	meta := gallina.NewMeta("C33", f.Seed, f.Tier)
+	meta.Rule = "corpus of reproducers and typing edge cases first, then queries from a type-directed grammar generator (all of parser.Functions incl. experimental, aggregations, binary operators with matching modifiers, subqueries, @/offset, parentheses) with injected type errors (per-mille rate drawn per case from {0,0,0,15,40,120}); each runs as instant and as range query on one of 6 generated data sets in one of 3 engine configurations, then again concurrently; non-trivial = syntactically valid query with at least one operator/call/aggregation node; distinct by query string"
+	cf := &gallina.CaseFile{Dir: f.Out, Type: "case", PerShard: 700,
+		Preamble: "From Coq Require Import List ZArith String.\nFrom Verif Require Import model.PromqlTyping corr.CorrC33.\nImport ListNotations.\nOpen Scope string_scope.\nOpen Scope Z_scope.\n",
+		Footer:   gallina.StdFooter}
+
+	nq := f.Count(900, 14000)
+	const nds = 6
+	dsets := make([]*dataset, nds)
+	for i := range dsets {
+		dsets[i] = genDataset(gen.Fork(f.Seed, 1000000+i))
 	}
-	q := &storage.MockQueryable{MockQuerier: &storage.MockQuerier{
-		SelectMockFunction: func(_ bool, _ *storage.SelectHints, ms ...*labels.Matcher) storage.SeriesSet {
-			return &listSet{ss: []storage.Series{storage.NewListSeries(labels.FromStrings("__name__", "foo", "a", "x"), l)}}
-		}}}
-	ng := promql.NewEngine(promql.EngineOpts{MaxSamples: 1000000, Timeout: 100 * time.Second,
-		NoStepSubqueryIntervalFn: func(int64) int64 { return 60000 }, EnableAtModifier: true, EnableNegativeOffset: true,
-		LookbackDelta: 5 * time.Minute, Parser: parser.NewParser(parser.Options{EnableExperimentalFunctions: true})})
-	for _, qs := range os.Args[1:] {
-		qry, err := ng.NewInstantQuery(context.Background(), q, nil, qs, time.UnixMilli(200000))
-		if err != nil {
-			fmt.Printf("%s\n  NEW-ERR %v\n", qs, err)
+	failing := &dataset{failSel: true}
+	engines := []*promql.Engine{newEngine(0), newEngine(1), newEngine(2)}
+	dataOf := func(c *qcase) *dataset {
+		if c.ds < 0 {
+			return failing
+		}
+		return dsets[c.ds]
+	}
+
+	// ---- build the list of cases
+	var cases []*qcase
+	seen := map[string]bool{}
+	addCase := func(r *gen.Rand, q, corp string) {
+		if seen[q] {
+			return
+		}
+		seen[q] = true
+		c := &qcase{q: q, corpus: corp, ds: r.Intn(nds), eng: gen.Pick(r, []int{0, 0, 0, 1, 1, 2})}
+		if r.Chance(1, 60) {
+			c.ds = -1
+		}
+		c.ts = gen.Pick(r, []int64{0, 100000, 300000, 450000, 600000, 1200000, 333333, -5000})
+		c.rs = gen.Pick(r, []int64{0, 90000, 300000, 600000, -30000})
+		c.step = gen.Pick(r, []int64{15000, 30000, 60000, 7000, 1})
+		c.nsteps = 1 + r.Intn(9)
+		cases = append(cases, c)
+	}
+	for i, q := range corpus {
+		addCase(gen.Fork(f.Seed, i), q[1], q[0])
+	}
+	for i := 0; len(cases) < nq+len(corpus) && i < 20*nq; i++ {
+		r := gen.Fork(f.Seed, 1000+i)
+		addCase(r, newQGen(r).top(), "")
+	}
+
+	// ---- parse (two phases), project, preprocess
+	for _, c := range cases {
+		var before string
+		var ok bool
+		_, syn, typ := parser.VerifParseC33(c.q, popts, func(e parser.Expr) { before, ok = project(e) })
+		c.synErr, c.typErr = syn, typ
+		if syn != nil {
 			continue
 		}
-		res := qry.Exec(context.Background())
-		fmt.Printf("%s\n  INSTANT err=%v val=%v\n", qs, res.Err, res.Value)
-		qry.Close()
-		qry, err = ng.NewRangeQuery(context.Background(), q, nil, qs, time.UnixMilli(100000), time.UnixMilli(200000), 30*time.Second)
-		if err != nil {
-			fmt.Printf("  RANGE NEW-ERR %v\n", err)
+		c.modelled = ok
+		c.term = before
+		e2, err := parser.NewParser(popts).ParseExpr(c.q)
+		if (err != nil) != (typ != nil) {
+			meta.GoViol = append(meta.GoViol, gallina.GoViolation{ID: c.q, Shape: "parser-phases-disagree", What: fmt.Sprintf("ParseExpr err=%v, shim type err=%v", err, typ)})
+		}
+		if err == nil {
+			c.rootType = e2.Type()
+			c.paramQuirk = hasParamQuirk(e2)
+			ll := strings.ToLower(c.q)
+			c.orderDep = strings.Contains(ll, "topk") || strings.Contains(ll, "bottomk") || strings.Contains(ll, "limitk")
+			func() {
+				defer func() {
+					if r := recover(); r != nil {
+						c.pre = "None"
+						meta.GoViol = append(meta.GoViol, gallina.GoViolation{ID: c.q, Shape: "preprocess-panic", What: fmt.Sprint(r)})
+					}
+				}()
+				pe, perr := promql.PreprocessExpr(e2, time.UnixMilli(c.ts), time.UnixMilli(c.ts), 0)
+				if perr != nil {
+					c.pre = "None"
+					return
+				}
+				if s, ok := project(pe); ok {
+					c.pre = "(Some " + s + ")"
+				} else {
+					c.modelled = false
+				}
+			}()
+		} else {
+			c.pre = "None"
+		}
+	}
+
+	// ---- serial evaluation (twice, to know which results are reproducible at all)
+	for _, c := range cases {
+		d := dataOf(c)
+		before := d.selects.Load()
+		c.inst = runOne(engines[c.eng], d, c, true)
+		c.rng = runOne(engines[c.eng], d, c, false)
+		if (c.synErr != nil || c.typErr != nil) && d.selects.Load() != before {
+			c.selRej = true
+		}
+		i2 := runOne(engines[c.eng], d, c, true)
+		r2 := runOne(engines[c.eng], d, c, false)
+		if !sameObs(c.inst, i2) || !sameObs(c.rng, r2) {
+			c.unstable = true
+		}
+		c.concSame = true
+	}
+
+	// ---- concurrent evaluation in the same engines
+	workers := 8
+	rounds := 2
+	var mu sync.Mutex
+	var suspects []*qcase
+	for round := 0; round < rounds; round++ {
+		order := make([]int, len(cases))
+		for i := range order {
+			order[i] = i
+		}
+		rr := gen.Fork(f.Seed, 5000000+round)
+		for i := len(order) - 1; i > 0; i-- {
+			j := rr.Intn(i + 1)
+			order[i], order[j] = order[j], order[i]
+		}
+		ch := make(chan int)
+		var wg sync.WaitGroup
+		for w := 0; w < workers; w++ {
+			wg.Add(1)
+			go func() {
+				defer wg.Done()
+				for i := range ch {
+					c := cases[i]
+					d := dataOf(c)
+					io := runOne(engines[c.eng], d, c, true)
+					ro := runOne(engines[c.eng], d, c, false)
+					bad := io.class == clInternal || ro.class == clInternal
+					if !c.unstable && !c.orderDep && (!sameObs(c.inst, io) || !sameObs(c.rng, ro)) {
+						bad = true
+					}
+					if bad {
+						mu.Lock()
+						suspects = append(suspects, c)
+						if io.class == clInternal && c.inst.class != clInternal {
+							c.inst = io
+						}
+						if ro.class == clInternal && c.rng.class != clInternal {
+							c.rng = ro
+						}
+						mu.Unlock()
+					}
+				}
+			}()
+		}
+		for _, i := range order {
+			ch <- i
+		}
+		close(ch)
+		wg.Wait()
+	}
+	for _, c := range suspects {
+		// confirm serially once more: a result that also varies serially is not a concurrency effect
+		d := dataOf(c)
+		i3 := runOne(engines[c.eng], d, c, true)
+		r3 := runOne(engines[c.eng], d, c, false)
+		if c.inst.class == clInternal || c.rng.class == clInternal {
+			continue // reported through the class
+		}
+		if sameObs(c.inst, i3) && sameObs(c.rng, r3) {
+			c.concSame = false
+		} else {
+			c.unstable = true
+		}
+	}
+
+	// ---- function table case (id 0)
+	cf.Add(fmt.Sprintf("mkCase 0 1 ENum %s true TNone None 0%%nat (mkRun 0 TNone) (mkRun 0 TNone) false true",
+		tableTerm(parser.Functions, func(n string) bool { return promql.FunctionCalls[n] != nil })))
+	meta.Case(0, desc{Query: "<function table: parser.Functions + promql.FunctionCalls>", Shape: "function-table"})
+	meta.Evaluations++
+
+	// ---- emit
+	id := 1
+	for _, c := range cases {
+		internal := c.inst.class == clInternal || c.rng.class == clInternal
+		shape := "ok"
+		msg := c.inst.msg + " | " + c.rng.msg
+		switch {
+		case internal && c.paramQuirk && (strings.Contains(msg, "*parser.ParenExpr, not") || strings.Contains(msg, "cannot do range evaluation of matrix selector")):
+			shape = "agg-param-not-preprocessed"
+		case internal && strings.Contains(msg, "*parser.StepInvariantExpr, not *parser.VectorSelector"):
+			shape = "info-selector-step-invariant-wrapped"
+		case internal:
+			shape = "internal-error"
+		case !c.concSame:
+			shape = "concurrent-differs-from-serial"
+		case c.selRej:
+			shape = "rejected-query-reached-storage"
+		}
+		typing := "ok:" + string(c.rootType)
+		switch {
+		case c.synErr != nil:
+			typing = "syntax error"
+		case c.typErr != nil:
+			typing = "type error"
+		}
+		dsc := desc{Query: c.q, Dataset: c.ds, Engine: c.eng, TS: c.ts, RStart: c.rs, RStep: c.step, NSteps: c.nsteps,
+			Typing: typing, Instant: obsStr(c.inst), Range: obsStr(c.rng), Shape: shape, Corpus: c.corpus}
+		// distribution
+		meta.Hit("typing:" + typing)
+		meta.Hit("instant:" + []string{"value", "user-error", "internal", "rejected"}[c.inst.class])
+		meta.Hit("range:" + []string{"value", "user-error", "internal", "rejected"}[c.rng.class])
+		if c.unstable {
+			meta.Hit("serially-unstable(not compared concurrently)")
+		}
+		if c.orderDep {
+			meta.Hit("tie-order-dependent(not compared concurrently)")
+		}
+		if c.ds < 0 {
+			meta.Hit("failing-storage")
+		}
+		if strings.ContainsAny(c.q, "(+-*/") {
+			meta.Nontrivial++
+		}
+		meta.Evaluations++
+		if c.synErr != nil || !c.modelled {
+			// outside the model: judged on the Go side only
+			meta.Hit("go-side-only")
+			if internal || !c.concSame || c.selRej {
+				meta.GoViol = append(meta.GoViol, gallina.GoViolation{ID: c.q, Shape: shape, What: dsc.Instant + " / " + dsc.Range})
+			}
 			continue
 		}
-		res = qry.Exec(context.Background())
-		fmt.Printf("  RANGE err=%v val=%v\n", res.Err, res.Value)
-		qry.Close()
+		ok := c.typErr == nil
+		pre := c.pre
+		if pre == "" {
+			pre = "None"
+		}
+		cf.Add(fmt.Sprintf("mkCase %d 0 %s [] %s %s %s %d%%nat %s %s %s %s",
+			id, c.term, b(ok), vtypeTerm(c.rootType), pre, c.nsteps, runTerm(c.inst), runTerm(c.rng), b(c.selRej), b(c.concSame)))
+		meta.Case(id, dsc)
+		id++
+	}
+	meta.Notes = append(meta.Notes, "absence of runtime faults in unmodelled glue and independence of concurrently evaluated queries are established by these generated runs only (testing), not by the Coq theorems")
+	cf.Flush()
+	meta.Write(f.Out)
+	if len(os.Getenv("VERIF_C33_DUMPTAB")) > 0 {
+		fmt.Println(tableTerm(parser.Functions, func(n string) bool { return promql.FunctionCalls[n] != nil }))
 	}
 }
